@@ -507,3 +507,26 @@ def run_g19_g20(chk, repo):
                                               'feature and does not round-trip')
     if n == 0:
         raise AnalysisError('G20: no ref() interpreter method found')
+
+    # ---------------------------------------------------------------- G21 the yes/no tests between search spaces answer on every path
+    from sa import lints as _lints
+    G21 = chk.rule('G21', 'ModelFeatures: a yes/no test between search spaces (all returns are truth values) returns on every '
+                          'path; a path that runs off the end answers None = "no" although the comparison made on it '
+                          'succeeded', floor=2)
+    pm = repo.module('pharmpy.tools.mfl.parse')
+    mf = pm.classes.get('ModelFeatures')
+    if mf is None:
+        raise AnalysisError('G21: ModelFeatures not found')
+    if 'contain_subset' not in mf.methods:
+        raise AnalysisError('G21: ModelFeatures.contain_subset not found')
+    for g in mf.methods.values():
+        if not _lints.is_predicate(g.node):
+            continue
+        off = _lints.predicate_falls_off(g.node)
+        chk.instance(G21, f'{g.qualname}: {len(off)} paths end without a return')
+        for nd in off:
+            chk.violation(G21, pm.rel, g.qualname, f'falls off the end after `{nd.text()[:70]}`',
+                          'every comparison made on this path succeeded, yet the caller receives None (falsy)',
+                          line=nd.line,
+                          witness="ModelFeatures.create('ABSORPTION(FO);ELIMINATION(FO)').contain_subset(same, tool='x') "
+                                  "is None although a search space contains itself")
